@@ -299,8 +299,9 @@ def part_values(chk, c2m, model, d, quick):
     return len(cases), findings, model_breaks
 
 
-def bisect_values(c2m, cs, ex, d, bad0):
+def bisect_values(c2m, cs, ex, d, bad0, run=None, dis=None):
     """some engine produced no output for the batch: rerun failing engines on halves down to single cases"""
+    run, dis = run or run_value_batch, dis or value_disagreements
     engines = sorted(set(b[1] for b in bad0 if b[3] is None))
     eng = [e for e in ENGINES if ename(e) in engines]
     out = [b for b in bad0 if b[3] is not None]
@@ -310,8 +311,8 @@ def bisect_values(c2m, cs, ex, d, bad0):
         idx = work.pop()
         steps += 1
         sub, subex = [cs[i] for i in idx], [ex[i] for i in idx]
-        res, notes = run_value_batch(c2m, sub, subex, d, 'bis', engines=eng)
-        bad = value_disagreements(sub, subex, res, notes, eng)
+        res, notes = run(c2m, sub, subex, d, 'bis', engines=eng)
+        bad = dis(sub, subex, res, notes, eng)
         failed = [b for b in bad if b[3] is None]
         out += [(idx[k], e, w, g, wt) for k, e, w, g, wt in bad if g is not None]
         if failed:
@@ -321,6 +322,131 @@ def bisect_values(c2m, cs, ex, d, bad0):
                 h = len(idx) // 2
                 work += [idx[:h], idx[h:]]
     return out
+
+
+# ------------------------------------------------------------------ A3: floating and mixed integer/floating values
+FCOLS = ['static initialiser', '== probe in a static initialiser', 'integer-constant-expression probe (enum, array size)',
+         'automatic object initialised by the constant expression', 'run time (global operands)', 'run time (volatile locals)']
+
+
+def run_fvalue_batch(c2m, cases, expected, d, tag, engines=ENGINES):
+    src = os.path.join(d, tag + '.c')
+    open(src, 'w').write(G.fvalue_unit(cases, expected))
+    res, notes = {}, {}
+
+    def table(out):
+        t = {}
+        for l in out.split('\n'):
+            w = l.split()
+            if len(w) == 7:
+                try:
+                    t[int(w[0])] = (int(w[1], 16), int(w[2]), int(w[3]), int(w[4], 16), int(w[5], 16), int(w[6], 16))
+                except ValueError:
+                    pass
+        return t
+    rc, out, err = run_gcc(src, d, tag)
+    res['gcc'] = table(out)
+    if rc != 0:
+        notes['gcc'] = 'rc=%d %s' % (rc, err[-300:])
+    for e in engines:
+        rc, out, err = run_c2m(c2m, src, e, d)
+        res[ename(e)] = table(out)
+        if rc != 0:
+            notes[ename(e)] = 'rc=%d %s' % (rc, (err + out[-200:])[-400:])
+    return res, notes
+
+
+def fvalue_disagreements(cases, expected, res, notes, engines):
+    bad = []
+    for k, c in enumerate(cases):
+        et, ev = expected[k]
+        if not G.is_fp(et):
+            ev = G.as_u64(ev)
+        want = (ev, 1, 1, ev, ev, ev)
+
+        def canon(g):
+            return None if g is None else tuple(G.canon_bits(et, x) if i in (0, 3, 4, 5) else x for i, x in enumerate(g))
+        g = canon(res['gcc'].get(k))
+        if g != want:
+            raise vlib.BuildError('FFold C11 specification disagrees with gcc on %s: gcc %s, model %s (%s)'
+                                  % (G.fconst_expr(c), g, want, notes.get('gcc', '')))
+        for e in engines:
+            got = canon(res[ename(e)].get(k))
+            if got != want:
+                if got is None:
+                    bad.append((k, ename(e), 'no output (%s)' % notes.get(ename(e), 'missing line'), None, want))
+                else:
+                    i = [j for j in range(6) if got[j] != want[j]][0]
+                    bad.append((k, ename(e), FCOLS[i], got[i], want[i]))
+    return bad
+
+
+def part_fvalues(chk, c2m, model, d, quick):
+    rng = chk.rng('fvalues')
+    cands = []
+    cp = os.path.join(vlib.VERIF, 'corpus', 'c07_fvalues.txt')
+    if os.path.exists(cp):
+        for l in open(cp):
+            l = l.strip()
+            if l and not l.startswith('#'):
+                cands.append(tuple(json.loads(l)))
+    cands += G.gen_fvalue_cases(rng, 900 if quick else 12000)
+    cands = list(dict.fromkeys(cands))
+    if not any('to a 64-bit unsigned type' in t for t in chk.fixed):
+        # fixes/C07-17.patch is not recorded as applied: its class of inputs is not generated (nothing else is skipped)
+        nb = len(cands)
+        cands = [c for c in cands if not G.is_f2u64_big(c)]
+        chk.dist('A3_candidates', 'skipped: floating value >= 2^63 to a 64-bit unsigned type (fixes/C07-17 not recorded as applied)', nb - len(cands))
+    mres = ask(model, [G.fquery(c) for c in cands])
+    old = ask(model, ['old ' + G.fquery(c) for c in cands])
+    cases, expected, model_breaks = [], [], []
+    nund = 0
+    for c, (mc2m, mc11), (oc2m, _) in zip(cands, mres, old):
+        v11 = G.parse_fmodel(mc11)
+        if v11 is None:
+            nund += 1
+            continue
+        cases.append(c)
+        expected.append(v11)
+        if G.parse_fmodel(mc2m) != v11:
+            model_breaks.append(c)
+        if G.parse_fmodel(oc2m) != v11:
+            chk.dist('A3_sensitive', 'result differs when + - * / are computed in long double first (fixes/C07-16)')
+    chk.dist('A3_candidates', 'defined', len(cases))
+    chk.dist('A3_candidates', 'undefined behaviour (skipped)', nund)
+    limit = 600 if quick else 9000
+    cases, expected = cases[:limit], expected[:limit]
+    findings = []
+    B = 200
+    for off in range(0, len(cases), B):
+        cs, ex = cases[off:off + B], expected[off:off + B]
+        res, notes = run_fvalue_batch(c2m, cs, ex, d, 'fval%d' % off)
+        for k, c in enumerate(cs):
+            chk.count('A3:' + repr(c), nontrivial=True, n=6 * (len(ENGINES) + 1))
+            chk.dist('A3_kind', c[0] + (':' + c[1] if c[0] in ('fbin', 'fun') else ''))
+            chk.dist('A3_result_type', ex[k][0])
+            ts = [t for t in c[1:] if t in G.ORD]
+            chk.dist('A3_operand_types', 'mixed integer/floating' if any(G.is_fp(t) for t in ts) and not all(G.is_fp(t) for t in ts) else 'all floating')
+        bad = fvalue_disagreements(cs, ex, res, notes, ENGINES)
+        if bad and any(b[3] is None for b in bad) and len(cs) > 1:
+            bad = bisect_values(c2m, cs, ex, d, bad, run=run_fvalue_batch, dis=fvalue_disagreements)
+        for k, e, what, got, want in bad:
+            findings.append((cs[k], ex[k], e, what, got, want))
+    for c in cases[:3]:
+        chk.sample('floating/mixed value probe: ' + G.fconst_expr(c))
+    seen = set()
+    for c, ex, e, what, got, want in findings:
+        sig = 'fvalue:%s:%s' % (G.fconst_expr(c), what)
+        if sig in seen or len(seen) >= 6:
+            continue
+        seen.add(sig)
+        engines = sorted(set(f[2] for f in findings if f[0] == c and f[3] == what))
+        hx = lambda v: hex(v) if isinstance(v, int) else str(v)
+        chk.finding(sig, dict(kind='fvalue', case=list(c), expr=G.fconst_expr(c), expected=[ex[0], ex[1]], context=what,
+                              engines=engines, got=hx(got), want=hx(want if not isinstance(want, tuple) else want[0])),
+                    '%s (result type %s) in %s under c2m %s: got %s, gcc/C11 %s (object bytes / probe value)'
+                    % (G.fconst_expr(c), G.CNAME[ex[0]], what, ','.join(engines), hx(got), hx(want if not isinstance(want, tuple) else want[0])))
+    return len(cases), findings, model_breaks
 
 
 # ------------------------------------------------------------------ F: bit-field access
@@ -703,8 +829,6 @@ def part_abi(chk, c2m, d, quick):
         if f.startswith('c07_abi') and f.endswith('.json'):
             units.append(('corpus:' + f, abi_unit_from_json(json.load(open(os.path.join(cp, f)))['unit'])))
     avoid = [shape for shape, sig in KNOWN_SHAPES.items() if any(k == sig for k, _ in chk.known)]
-    if not os.path.exists(os.path.join(cp, KNOWN_SHAPES['align16-stack'].split(':')[-1])):
-        avoid.append('align16-stack')       # the witness of the finding is not in the corpus (yet): do not generate its shape
     nunits, nshapes = (4, 26) if quick else (40, 30)
     for i in range(nunits):
         units.append(('gen%d' % i, A.gen_unit(chk.rng('abi%d' % i), nshapes, avoid=avoid)))
@@ -860,12 +984,14 @@ def run(chk):
     with Scratch() as d:
         c2m, model = tools(d)
         parts = os.environ.get('C07_PARTS', 'ABFX')      # development switch; the registered command runs everything
-        n1 = n2 = n3 = n4 = n5 = 0
+        n1 = n2 = n3 = n4 = n5 = n6 = 0
         model_breaks = []
         bf_tie = []
         if 'A' in parts:
             n1, bad_types = part_types(chk, c2m, model, d)
             n2, bad_values, model_breaks = part_values(chk, c2m, model, d, quick)
+            n6, bad_fvalues, fbreaks = part_fvalues(chk, c2m, model, d, quick)
+            model_breaks = model_breaks + fbreaks
         if 'F' in parts:
             n4, bad_bf, bf_tie = part_bitfields(chk, c2m, model, d, quick)
         if 'B' in parts:
@@ -877,6 +1003,10 @@ def run(chk):
     chk.cov['rule'] = ('A1: _Generic type id of every operator on all 15x15 arithmetic type pairs and of typed integer constants; '
                        'A2: each UB-free typed operator application is evaluated in 3 constant contexts and 2 run-time forms under '
                        '7 c2m engine configurations and gcc (evaluations = cases x 5 x 8); every case is non-trivial; distinct by case; '
+                       'A3: the same for constant expressions with floating and mixed integer/floating operands (+ - * / comparisons, unary, '
+                       'casts in both directions, ?: with constant condition of any type, && ||) on boundary values of float / double / long double: '
+                       'bytes of the result in a static initialiser, an == probe, an ICE probe for casts of floating constants, an automatic '
+                       'initialiser and 2 run-time forms under 7 engine configurations and gcc vs the extracted FFold model (Flocq IEEE numbers); '
                        'B: seeded UB-free programs (validated by gcc -fsanitize=undefined and -O0/-O1/-O2 agreement), stdout + exit status '
                        'under the 7 engine configurations vs gcc; '
                        'F: bit-field stores (declared type x width x position in the unit x neighbours x boundary value x fill pattern x '
@@ -894,8 +1024,9 @@ def run(chk):
         if lim:
             r['log'] += '\nLimits tie: ' + '; '.join(lim)
         if model_breaks:
-            r['log'] += '\nCFold model disagrees with C11Fold on: %s' % (model_breaks[:3],)
-        searched = '%d type probes, %d value probes and %d bit-field stores agreed between c2m, gcc and the models' % (n1, n2, n4)
+            r['log'] += '\nCFold / FFold model disagrees with C11Fold / the C11 side of FFold on: %s' % (model_breaks[:3],)
+        searched = ('%d type probes, %d integer and %d floating/mixed value probes and %d bit-field stores agreed between c2m, gcc and the models'
+                    % (n1, n2, n6, n4))
         if bf_tie and not (lim or model_breaks) and r['ok']:
             # the theorems are about store_code / load_code of coq/C07/BitField.v; the code c2m emits is no longer that code
             chk.finding('bitfield-code-tie', dict(theorems=r['theorems'], broken=bf_tie[:6], searched=searched),
@@ -920,6 +1051,16 @@ def replay(chk, path):
             for e in sorted(res):
                 print('%-8s %s %s' % (e, res[e].get(0), notes.get(e, '')))
             bad = value_disagreements([c], [ex], res, notes, ENGINES)
+            return 1 if bad else 0
+        if j.get('kind') == 'fvalue':
+            c = tuple(j['case'])
+            ex = (j['expected'][0], j['expected'][1])
+            res, notes = run_fvalue_batch(c2m, [c], [ex], d, 'rp')
+            print('expression:', G.fconst_expr(c), ' expected', ex[0], hex(ex[1]) if isinstance(ex[1], int) else ex[1])
+            print('columns:', '; '.join(FCOLS))
+            for e in sorted(res):
+                print('%-8s %s %s' % (e, [hex(x) for x in res[e].get(0, ())], notes.get(e, '')))
+            bad = fvalue_disagreements([c], [ex], res, notes, ENGINES)
             return 1 if bad else 0
         if j.get('kind') == 'type':
             n, bad = part_types(chk, c2m, model, d)
